@@ -71,7 +71,7 @@ type hdOp struct {
 	O int `json:"o,omitempty"`
 
 	// room API
-	Api    string     `json:"api,omitempty"` // delete, disinvite, update, participants, incall, incallall, message
+	Api    string     `json:"api,omitempty"` // delete, disinvite, update, participants, incall, incallall, message, dialout (Tag: 0 well-formed, 1 number not E.164, 2 room id not numeric, 3 no number)
 	SignAs int        `json:"signas,omitempty"`
 	Users  []hdApiUser `json:"users,omitempty"`
 	InCall int        `json:"incall,omitempty"`
@@ -682,12 +682,29 @@ func (r *hdRun) exec(o *hdOp) string {
 		case "incallall":
 			body = map[string]interface{}{"type": "incall", "incall": map[string]interface{}{"incall": o.InCall, "all": true}}
 			term = fmt.Sprintf("(AInCallAll %d)", o.InCall)
+		case "dialout":
+			// The request is handed to the connected dial-out client of THIS backend (the driver's clients accept
+			// it at once, see hdClient.answerDialout), 404 when there is none. The server picks the client by
+			// walking a Go map: the generators keep at most one connected dial-out client per backend.
+			number := "+4930123456"
+			switch o.Tag {
+			case 1:
+				number = "030123456"
+			case 3:
+				number = ""
+			}
+			body = map[string]interface{}{"type": "dialout", "dialout": map[string]interface{}{"number": number}}
+			term = fmt.Sprintf("(ADialout %s)", coqBool(o.Tag == 0))
 		default:
 			body = map[string]interface{}{"type": "message", "message": map[string]interface{}{"data": map[string]interface{}{"tag": o.Tag}}}
 			term = fmt.Sprintf("(AMessage %d)", o.Tag)
 		}
 		data, _ := json.Marshal(body)
-		status := s.roomApi(o.B, o.SignAs, hdRoom(o.R), data)
+		roomName := hdRoom(o.R)
+		if o.Api == "dialout" && o.Tag != 2 {
+			roomName = fmt.Sprintf("%d", o.R) // dial-out wants a numeric room id (Nextcloud's conversation id)
+		}
+		status := s.roomApi(o.B, o.SignAs, roomName, data)
 		r.notes = append(r.notes, fmt.Sprintf("api status %d", status))
 		return fmt.Sprintf("OApi %d %d %d %s", o.B, o.SignAs, o.R, term)
 	case "internal":
@@ -979,10 +996,29 @@ func (r *hdRun) project(conn int, data []byte) string {
 		case "participants":
 			switch m.Event.Type {
 			case "update":
-				if m.Event.Update != nil && m.Event.Update.All {
-					return "(SPart 1)"
+				// the room the update is for and the signaling sessions its user list names (sorted; entries whose
+				// session id is not a session id of this server would be 0 and are left out)
+				all, room := 0, 0
+				var ids []uint64
+				if u := m.Event.Update; u != nil {
+					if u.All {
+						all = 1
+					}
+					room = hdRoomNum(u.RoomId)
+					for _, e := range u.Users {
+						if id, ok := e["sessionId"].(string); ok {
+							if sid := r.sys.sidOf(id); sid != 0 {
+								ids = append(ids, sid)
+							}
+						}
+					}
 				}
-				return "(SPart 0)"
+				sort.Slice(ids, func(i, j int) bool { return ids[i] < ids[j] })
+				var terms []string
+				for _, e := range ids {
+					terms = append(terms, fmt.Sprintf("%d", e))
+				}
+				return fmt.Sprintf("(SPartL %d %d %s)", all, room, coqList(terms))
 			case "flags":
 				if m.Event.Flags != nil {
 					return fmt.Sprintf("(SFlags %d %d)", r.sys.sidOf(m.Event.Flags.SessionId), m.Event.Flags.Flags)
@@ -990,6 +1026,15 @@ func (r *hdRun) project(conn int, data []byte) string {
 			}
 		}
 		return "(SOther 8)"
+	case "internal":
+		if m.Internal == nil || m.Internal.Type != "dialout" || m.Internal.Dialout == nil {
+			return "(SOther 12)"
+		}
+		var rn int
+		if _, err := fmt.Sscanf(m.Internal.Dialout.RoomId, "%d", &rn); err != nil || fmt.Sprintf("%d", rn) != m.Internal.Dialout.RoomId {
+			return "(SOther 13)"
+		}
+		return fmt.Sprintf("(SDialout %d)", rn)
 	case "transient":
 		if m.TransientData == nil {
 			return "(SOther 9)"
